@@ -1,9 +1,172 @@
-"""Stages beyond the core pipeline (iterators, clones, crashes, pointer-level model,
-size algebra, borrow discipline).  Filled in progressively."""
+"""Stages beyond the core pipeline: iterators (C12, C17), clones (C14), crash points (C16),
+pointer-level model (C07/C16/C17 design level), size algebra (C08, C09), borrow discipline
+(C18)."""
+import json
+import os
+
+
+def replay_into(prop, rep, fnd, cov, ck, universe=3):
+    nconf = 0
+    executed = 0
+    for c in rep["configs"]:
+        nconf += 1
+        if c["crashed"]:
+            if prop in ("C07", "C12", "C14", "C17"):
+                fnd.add("replayer_crash", "replayer process died (rc %s) under %s/%s: %s" %
+                        (c["returncode"], c["hasher"], c["keyform"], c["stderr"][-300:]),
+                        {"kind": "replay-crash", "script": rep["script"], "hasher": c["hasher"],
+                         "keyform": c["keyform"]})
+            continue
+        executed += c["summary"]["executed"]
+        for m in c["mismatches"]:
+            if prop in ck.replay_owners(m):
+                seg = ck.script_segment(rep["script"], m["line"])
+                fnd.add("replay:%s:%s" % (m["op"], m["facet"]),
+                        "replay %s/%s line %d op %s facet %s: expected %s, real cache gave %s" %
+                        (c["hasher"], c["keyform"], m["line"], m["op"], m["facet"],
+                         json.dumps(m["expected"])[:300], json.dumps(m["actual"])[:300]),
+                        {"kind": "replay", "hasher": c["hasher"], "keyform": c["keyform"],
+                         "universe": universe, "ops": seg, "facet": m["facet"],
+                         "expected": m["expected"], "actual": m["actual"]})
+    cov["replay_configurations"] = cov.get("replay_configurations", 0) + nconf
+    cov["replayed_steps"] = cov.get("replayed_steps", 0) + executed
+
+
+def model_into(prop, model, cov, ck, key):
+    cov["states"] = cov.get("states", 0) + model["states"]
+    cov["transitions"] = cov.get("transitions", 0) + model["transitions"]
+    cov.setdefault("models", {})[key] = {"cfg": model["cfg"], "states": model["states"],
+                                         "transitions": model["transitions"],
+                                         "depth": model.get("depth"), "wall_s": model.get("wall_s")}
+    if not model["ok"]:
+        raise ck.ToolError("bounded model %s violates the specification's own properties:\n%s" %
+                           (key, model.get("output_tail", "")[-2500:]))
+
+
+def segments_into(prop, seg, fnd, cov, ck, what):
+    """TLC verdicts on segment runs (forget / crash)"""
+    runs = 0
+    fired = 0
+    events = 0
+    for r in seg["runs"]:
+        v = r["validation"]
+        if r.get("crashed"):
+            fnd.add("process_died:" + what,
+                    "the process running the %s segments died (rc %s) under %s/%s: %s" %
+                    (what, r["rc"], r["hasher"], r["keyform"], r.get("stderr", "")[-300:]),
+                    {"kind": "segments", "file": r["segments_file"], "hasher": r["hasher"],
+                     "keyform": r["keyform"]})
+        if not v["ok"]:
+            raise ck.ToolError("TLC could not evaluate a %s trace:\n%s" % (what, v["tail"]))
+        runs += 1
+        events += r["events"]
+        if r.get("summary"):
+            fired += r["summary"].get("fired", 0)
+        for b in v["bad"]:
+            for pr, facet in b["bad"]:
+                if pr == prop:
+                    ops = r.get("bad_context", {}).get(str(b["line"]), [])
+                    last = ops[-1] if ops else {}
+                    cr = last.get("crash", {})
+                    sig = "%s:%s:%s:%s" % (what, b["op"], cr.get("kind", "-"), facet)
+                    fnd.add(sig, "%s segment under %s/%s, event %d: op %s%s: facet %s rejected" %
+                            (what, r["hasher"], r["keyform"], b["line"], b["op"],
+                             (" with a panic at the %s-th %s callback" % (cr.get("n"), cr.get("kind")))
+                             if cr else "", facet),
+                            {"kind": "trace", "hasher": r["hasher"], "keyform": r["keyform"],
+                             "universe": 3, "ops": ops, "facet": facet})
+    cov["traces_validated_against_impl"] = cov.get("traces_validated_against_impl", 0) + runs
+    cov["trace_events"] = cov.get("trace_events", 0) + events
+    cov[what + "_points_hit"] = cov.get(what + "_points_hit", 0) + fired
 
 
 def collect(prop, tier, fnd, cov, ck):
+    if prop in ("C12", "C17"):
+        model = ck.stage_model(tier, module="MC_Iter.tla", base="MC_Iter", name="model-iter")
+        model_into(prop, model, cov, ck, "MC_Iter")
+        dump = ck.stage_dump(tier, module="MC_Iter.tla", base="MC_IterDump", name="dump-iter",
+                             segments=(("forget", 1500 if tier == "quick" else 20000),))
+        cov["edges"] = dump["tour"]["edges"]
+        nt = dump["nontrivial"]
+        if prop == "C12":
+            rep = ck.stage_replay(tier, dump=dump, name="replay-iter", universe="4")
+            replay_into(prop, rep, fnd, cov, ck, universe=4)
+            drv = ck.stage_drive(tier)
+            ck.collect_drive(prop, drv, fnd, cov)
+            cov["distinct_nontrivial"] = nt["counts"].get("C12", 0)
+            cov["samples"] = nt["samples"].get("C12", [])[:3]
+        else:
+            seg = ck.stage_segments(tier, dump["forget"]["file"], "segments-forget", universe="4")
+            segments_into(prop, seg, fnd, cov, ck, "forget")
+            plan = forget_plan(tier, int(os.environ.get("VERIF_SEED", "0")))
+            drv = ck.stage_drive(tier, name="drive-forget", plan=plan)
+            ck.collect_drive(prop, drv, fnd, cov, crash_owner="C17")
+            cov["distinct_nontrivial"] = dump["forget"]["segments"]
+            cov["samples"] = first_segments(dump["forget"]["file"], 2)
+            cov["evaluations"] = cov.get("trace_events", 0)
+        return
+    if prop == "C14":
+        model = ck.stage_model(tier, module="MC_Clone.tla", base="MC_Clone", name="model-clone")
+        model_into(prop, model, cov, ck, "MC_Clone")
+        dump = ck.stage_dump(tier, module="MC_Clone.tla", base="MC_CloneDump", name="dump-clone")
+        cov["edges"] = dump["tour"]["edges"]
+        nt = dump["nontrivial"]
+        rep = ck.stage_replay(tier, dump=dump, name="replay-clone", universe="3")
+        replay_into(prop, rep, fnd, cov, ck)
+        drv = ck.stage_drive(tier)
+        ck.collect_drive(prop, drv, fnd, cov)
+        cov["distinct_nontrivial"] = nt["counts"].get("C14", 0)
+        cov["samples"] = nt["samples"].get("C14", [])[:3]
+        return
+    if prop == "C16":
+        model = ck.stage_model(tier)
+        model_into(prop, model, cov, ck, "MC_Small")
+        dump = ck.core_dump(tier)
+        seg = ck.stage_segments(tier, dump["crash"]["file"], "segments-crash", universe="3")
+        segments_into(prop, seg, fnd, cov, ck, "crash")
+        plan = crash_plan(tier, int(os.environ.get("VERIF_SEED", "0")))
+        drv = ck.stage_drive(tier, name="drive-crash", plan=plan)
+        ck.collect_drive(prop, drv, fnd, cov, crash_owner="C16")
+        cov["distinct_nontrivial"] = cov.get("crash_points_hit", 0)
+        cov["samples"] = first_segments(dump["crash"]["file"], 2)
+        cov["evaluations"] = cov.get("trace_events", 0)
+        return
     raise ck.ToolError("no stage built yet for " + prop)
+
+
+def first_segments(path, n):
+    out = []
+    with open(path) as fh:
+        for raw in fh:
+            s = json.loads(raw)
+            out.append({"prefix": [o["a"] for o in s["prefix"]], "op": s["op"]["a"],
+                        "sweep": s.get("sweep", []), "suffix_len": len(s.get("suffix", []))})
+            if len(out) >= n:
+                break
+    return out
+
+
+def forget_plan(tier, seed):
+    base = [("small", "const", "owned", 2500), ("medium", "default", "borrowed", 2500),
+            ("wide", "onebit", "owned", 1500)]
+    if tier != "quick":
+        base += [("small", "identity", "borrowed", 6000), ("medium", "sip", "owned", 6000),
+                 ("wide", "const", "borrowed", 4000), ("churn", "default", "owned", 4000)]
+    return [{"profile": p, "hasher": h, "keyform": k, "steps": n, "seed": seed * 1000 + 500 + i,
+             "crash_rate": 0.0, "forget_rate": 0.35, "segment": 120}
+            for i, (p, h, k, n) in enumerate(base)]
+
+
+def crash_plan(tier, seed):
+    base = [("small", "const", "owned", 2500), ("medium", "onebit", "borrowed", 2500),
+            ("wide", "const", "owned", 2000), ("churn", "default", "borrowed", 2000)]
+    if tier != "quick":
+        base += [("small", "identity", "borrowed", 6000), ("medium", "sip", "owned", 6000),
+                 ("wide", "default", "borrowed", 4000), ("churn", "const", "owned", 4000),
+                 ("large", "onebit", "owned", 2500)]
+    return [{"profile": p, "hasher": h, "keyform": k, "steps": n, "seed": seed * 1000 + 700 + i,
+             "crash_rate": 0.06, "forget_rate": 0.0, "segment": 150}
+            for i, (p, h, k, n) in enumerate(base)]
 
 
 def selftest(ck):
